@@ -241,8 +241,15 @@ Definition read_prop (env : enum_env) (o : fout) : outcome rprop :=
       RP (P (fo_json o) r opt t (clean_desc (fo_desc o))) [fo_number o] in
   match fo_kind o with
   | KdMapEntry vk =>
-      (* map branch: value schema from map.values constraints (none emitted) *)
-      obind (read_field env vk None None None (fo_key o)) (fun t => Ok (mk req false (PMap t)))
+      (* map branch: rules and value constraints from (buf.validate.field).map,
+         no list rules and no (j5.ext.v1.field) for the values; the key annotation
+         is read from the value field *)
+      let '(rules, values) :=
+          match vt with
+          | Some (CMap mn mx v) => (Some (MR mn mx), v)
+          | _ => (None, None)
+          end in
+      obind (read_field env vk values None None (fo_key o)) (fun t => Ok (mk req false (PMap rules t)))
   | k =>
       if fo_rep o
       then
@@ -304,8 +311,8 @@ Definition is_primary_ty (t : fty) : bool :=
   end.
 
 Definition norm_prop (env : enum_env) (idx : N) (d : prop) : rprop :=
-  let t := match p_ty d with PSingle t | PArray _ _ t | PMap t => t end in
-  RP (P (p_name d) (p_req d || match p_ty d with PMap _ => false | _ => is_primary_ty t end) (p_opt d)
+  let t := match p_ty d with PSingle t | PArray _ _ t | PMap _ t => t end in
+  RP (P (p_name d) (p_req d || match p_ty d with PMap _ _ => false | _ => is_primary_ty t end) (p_opt d)
         (match p_ty d with
          | PSingle t => PSingle (norm_fty env t)
          | PArray r sf t =>
@@ -318,7 +325,14 @@ Definition norm_prop (env : enum_env) (idx : N) (d : prop) : rprop :=
                                | _ => None
                                end
                      end) sf (norm_fty env t)
-         | PMap t => PMap (norm_fty env t)
+         | PMap r t =>
+             PMap (match r with
+                   | Some r => Some r
+                   | None => match write_field env t with
+                             | Ok w => if is_some (fw_val w) then Some (MR None None) else None
+                             | _ => None
+                             end
+                   end) (norm_fty env t)
          end)
         (clean_desc (p_desc d)))
      [(idx + 1)%N].
